@@ -348,6 +348,19 @@ func cloneReq(req *base.Request) *base.Request {
 	return c
 }
 
+// rawScheme names the scheme of an Authorization header without parsing its fields.
+func rawScheme(v base.HeaderValue) auth.VerifyMethod {
+	h := strings.Join(v, " ")
+	switch {
+	case strings.HasPrefix(h, "Basic "):
+		return auth.VerifyMethodBasic
+	case strings.Contains(h, "SHA-256"):
+		return auth.VerifyMethodDigestSHA256
+	default:
+		return auth.VerifyMethodDigestMD5
+	}
+}
+
 func usedScheme(req *base.Request) (auth.VerifyMethod, *headers.Authorization, error) {
 	var a headers.Authorization
 	if err := a.Unmarshal(req.Header["Authorization"]); err != nil {
@@ -368,6 +381,8 @@ type credSet struct {
 	method                              base.Method
 	url                                 string
 	st                                  map[string]int64 // shard-local counters, flushed at the end of the shard
+	allLists                            bool
+	relax                               bool // run the SETUP relaxation shapes for this set
 }
 
 func (c *credSet) count(k string) { c.st[k]++ }
@@ -384,14 +399,14 @@ func (c *credSet) witness(clause string, req *base.Request, user, pass, realm, n
 
 // mustReject is one soundness evaluation.
 func (c *credSet) mustReject(field, scheme string, req *base.Request, user, pass, realm, nonce string, methods []auth.VerifyMethod, detail string) {
-	c.count("perturbation:"+field)
+	c.count("perturbation:" + field)
 	err, pan := verify(req, user, pass, methods, realm, nonce)
 	if pan {
 		return
 	}
 	if err == nil {
 		run.Violation("verify/sound/"+field+"/accepted",
-			fmt.Sprintf("auth.Verify accepts a %s authorization although %s (%s)", scheme, strings.ReplaceAll(field, "-", " ")+" differs", detail),
+			fmt.Sprintf("auth.Verify accepts a %s authorization with a deviation in: %s (%s)", scheme, strings.ReplaceAll(field, "-", " "), detail),
 			c.witness("sound/"+field, req, user, pass, realm, nonce, methods, "reject", scheme, detail, nil))
 	}
 }
@@ -433,11 +448,11 @@ func (c *credSet) culprit(challengeFor func(realm, nonce string) base.HeaderValu
 // and the perturbations for nPert (list, scheme) pairs.
 func checkSet(r *rand.Rand, c *credSet, lists [][]auth.VerifyMethod) {
 	c.count("credential-sets")
-	c.count("password-class:"+c.passClass)
+	c.count("password-class:" + c.passClass)
 	if strings.Contains(c.pass, ":") {
 		c.count("passwords-containing-colon")
 	}
-	c.count("request-method:"+string(c.method))
+	c.count("request-method:" + string(c.method))
 	run.Distinct(c.user + "\x00" + c.pass + "\x00" + c.realm + "\x00" + c.nonce + "\x00" + c.url + "\x00" + string(c.method))
 
 	type signedCase struct {
@@ -447,8 +462,19 @@ func checkSet(r *rand.Rand, c *credSet, lists [][]auth.VerifyMethod) {
 	}
 	var ok []signedCase
 
-	all := append([][]auth.VerifyMethod{nil}, lists...)
+	// the library default + a sample of the 15 ordered subsets (every subset is taken equally often
+	// over the run; the thorough tier takes all of them for every set)
+	all := [][]auth.VerifyMethod{nil}
+	if c.allLists {
+		all = append(all, lists...)
+	} else {
+		o := r.Intn(len(lists))
+		for k := 0; k < 4; k++ {
+			all = append(all, lists[(o+k*4)%len(lists)])
+		}
+	}
 	for _, methods := range all {
+		c.count("method-list:" + listName(methods))
 		full := auth.GenerateWWWAuthenticate(methods, c.realm, c.nonce)
 		// the client either sees all challenges (and picks its preferred one) or supports one scheme only
 		offers := []base.HeaderValue{full}
@@ -464,25 +490,23 @@ func checkSet(r *rand.Rand, c *credSet, lists [][]auth.VerifyMethod) {
 					c.witness("complete", &base.Request{Method: c.method, Header: base.Header{}}, c.user, c.pass, c.realm, c.nonce, methods, "accept", "", strings.Join(offer, " | "), err))
 				continue
 			}
-			sch, _, err := usedScheme(req)
-			if err != nil {
-				run.Violation("verify/complete/authorization-unparsable", "the Authorization header produced by Sender is rejected by its own parser: "+err.Error(),
-					c.witness("complete", req, c.user, c.pass, c.realm, c.nonce, methods, "accept", "", "", err))
-				continue
+			sch, _, perr := usedScheme(req)
+			if perr != nil {
+				// the parser refuses what Sender wrote: still a completeness failure of Verify below;
+				// name the scheme from the raw header
+				sch = rawScheme(req.Header["Authorization"])
 			}
-			c.count("completeness:"+schemeName(sch))
+			c.count("completeness:" + schemeName(sch))
 			verr, pan := verify(req, c.user, c.pass, methods, c.realm, c.nonce)
 			if pan {
 				continue
 			}
 			if verr != nil {
-				offerCopy := offer
 				cul := c.culprit(func(realm, nonce string) base.HeaderValue {
 					f := auth.GenerateWWWAuthenticate(methods, realm, nonce)
 					if oi > 0 && oi-1 < len(f) {
 						return base.HeaderValue{f[oi-1]}
 					}
-					_ = offerCopy
 					return f
 				}, methods)
 				run.Violation("verify/complete/"+schemeName(sch)+"/rejected/"+cul,
@@ -491,14 +515,17 @@ func checkSet(r *rand.Rand, c *credSet, lists [][]auth.VerifyMethod) {
 					c.witness("complete", req, c.user, c.pass, c.realm, c.nonce, methods, "accept", schemeName(sch), "", verr))
 				continue
 			}
-			ok = append(ok, signedCase{req, methods, sch})
+			if perr == nil {
+				ok = append(ok, signedCase{req, methods, sch})
+			}
 		}
 	}
 	if len(ok) == 0 {
 		return
 	}
 
-	// soundness: every single-field perturbation, for one accepted case per scheme
+	// soundness: every single-field perturbation, for one accepted case per scheme (thorough) or
+	// for one accepted case (quick; the scheme rotates with the sample)
 	done := map[auth.VerifyMethod]bool{}
 	for _, k := range r.Perm(len(ok)) {
 		sc := ok[k]
@@ -507,6 +534,9 @@ func checkSet(r *rand.Rand, c *credSet, lists [][]auth.VerifyMethod) {
 		}
 		done[sc.scheme] = true
 		perturb(r, c, sc.req, sc.methods, sc.scheme, lists)
+		if !c.allLists {
+			break
+		}
 	}
 }
 
@@ -660,7 +690,9 @@ func perturb(r *rand.Rand, c *credSet, req *base.Request, methods []auth.VerifyM
 		}
 	}
 
-	setupRelax(r, c, methods, sch)
+	if c.relax {
+		setupRelax(r, c, methods, sch)
+	}
 }
 
 // otherURL returns a URL string different from s.
@@ -763,7 +795,7 @@ func setupRelax(r *rand.Rand, c *credSet, methods []auth.VerifyMethod, sch auth.
 				fmt.Sprintf("SETUP %s with %s credentials computed for %s is rejected although that is the documented base-URL compatibility rule: %v", q.URL, scheme, uri, err),
 				c.witness("setup-relax", q, c.user, c.pass, c.realm, c.nonce, methods, "accept", scheme, shape, err))
 		} else {
-			c.count("relaxed-SETUP-acceptances:"+shape)
+			c.count("relaxed-SETUP-acceptances:" + shape)
 		}
 	}
 
@@ -913,7 +945,7 @@ func main() {
 	}
 
 	// ---- pure part
-	nSets := run.Pick(100000, 5000000)
+	nSets := run.Pick(100000, 3000000)
 	const shards = 128
 	run.Parallel(shards, func(_, i int) {
 		r := run.Rand("pure", i)
@@ -924,7 +956,7 @@ func main() {
 			}
 		}()
 		for n := 0; n < nSets/shards; n++ {
-			c := &credSet{st: st, user: genUser(r), realm: genRealm(r), nonce: genNonce(r), method: reqMethods[r.Intn(len(reqMethods))], url: genURL(r)}
+			c := &credSet{st: st, allLists: !run.Quick() && n%8 == 0, relax: n%3 == 0, user: genUser(r), realm: genRealm(r), nonce: genNonce(r), method: reqMethods[r.Intn(len(reqMethods))], url: genURL(r)}
 			c.pass, c.passClass = genPass(r)
 			checkSet(r, c, lists)
 		}
